@@ -108,6 +108,11 @@ Theorem C14_unstring :
     (bad_string e -> unstring_annotation e = (after e, true)).
 Proof. exact unstring_annotation_spec. Qed.
 
+(* ... and what is handed back then is still the written annotation with some of its strings unquoted (each one
+   completely), none of them inside Literal[...] (Spec.SigStr.partly) *)
+Theorem C14_unstring_failure_keeps_annotation : forall e, partly e (after e).
+Proof. exact after_partly. Qed.
+
 (* ---- overloads -------------------------------------------------------------------------------------- *)
 (* @overload definitions followed by the implementation: the Function keeps one Signature per overload, each
    computed from its own definition (sig_of), in source order; the entry shows one definition line per
